@@ -210,7 +210,7 @@ def run(tier, seed):
     pool = RunnerPool()
     rng = ck.rng
     big = tier == "thorough"
-    NR = 60 if not big else 400
+    NR = 60 if not big else 200
     EXH = "1" if big else "0"
     T0 = time.time()
 
@@ -218,7 +218,7 @@ def run(tier, seed):
         log(f"[C10] {w}: t+{time.time() - T0:.1f}s")
 
     sheets = [(items, meta_of(items)) for items in CORPUS]
-    for k in range(1100 if not big else 30000):
+    for k in range(700 if not big else 6000):
         sheets.append(gen_sheet(rng, k))
     texts = [sheet_text(it) for it, _ in sheets]
     impl = compile_sheets(pool, texts)
